@@ -130,6 +130,14 @@ func c16(r *core.Run) {
 			)
 		}, "{Found(Names)=false | Eq(Names.Value,signer)=true | expired}")
 	}
+	// R3 also for the free-name handler: it writes Names records too
+	if hi := core.HandlerByKey(hs, "rns.MsgInit"); hi != nil {
+		guardRow(r, "C16/R3", hi, "live-name-protected", storeWrites("rns", "Names/value/"), func(*ssa.Function) core.GuardMatch {
+			return anyOf(foundGuard(p, rnsNames, false), expiredEdge(p))
+		}, "{Found(Names)=false | expired}")
+	} else {
+		r.Undecided("C16/R3", "rns.MsgInit:anchor-missing", "", "handler missing")
+	}
 	for _, key := range []string{"rns.MsgRegister", "rns.MsgRegisterName"} {
 		if h := core.HandlerByKey(hs, key); h != nil {
 			successImplies(r, "C16/R4", h, "write of the name record", storeWrites("rns", "Names/value/"))
